@@ -74,6 +74,17 @@ def _comment_tolerant(pat):
     return ''.join(out)
 
 
+def _op_tolerant(pat):
+    """For position anchors (`//@at .. before|after`) only: a comparison or additive operator written between blanks in
+    the anchor also matches its siblings, so that an edit of that very operator (`==` -> `!=`, `+` -> `-`) is JUDGED by
+    the contract spliced there instead of ending as a lost anchor.  An anchor only locates a line; it asserts nothing."""
+    pat = re.sub(r'(?<= )(?:==|!=|>=|<=)(?= )', '(?:==|!=|>=|<=|>|<)', pat)
+    pat = re.sub(r'(?<= )(?:>|<)(?= )', '(?:==|!=|>=|<=|>|<)', pat)
+    pat = re.sub(r'(?<= )(?:\\\+=|-=)(?= )', r'(?:\\+=|-=)', pat)
+    pat = re.sub(r'(?<= )(?:\\\+|-)(?= )', r'(?:\\+|-)', pat)
+    return pat
+
+
 def _parse_sub(arg):
     m = re.match(r'/(.*)/\s*=>\s*(.*?)(?:\s+min=(\d+))?(?:\s+count=(\d+))?\s*$', arg)
     if not m:
@@ -442,8 +453,9 @@ class Unit:
                 # match on body lines (real text, one line)
                 offs = 0
                 hits = []
+                apat = sp['pat'] if sp['where'] == 'replace' else _op_tolerant(sp['pat'])
                 for ln in body.split('\n'):
-                    if re.search(sp['pat'], ln):
+                    if re.search(apat, ln):
                         hits.append((offs, offs + len(ln)))
                     offs += len(ln) + 1
                 if len(hits) < sp['nth'] and sp.get('optional'):
